@@ -480,8 +480,16 @@ def sensitivity_info(prop):
             if d.get('property') != prop:
                 continue
             name = os.path.basename(os.path.dirname(mp))
-            det[name] = any(v.get('exit') == 1 and k.startswith(prop + '/')
-                            for k, v in d.get('checks', {}).items())
+            by = sorted(k.split('/')[0] for k, v in
+                        d.get('checks', {}).items() if v.get('exit') == 1)
+            if prop in by:
+                det[name] = True
+            elif by:
+                det[name] = 'reported by ' + ', '.join(by)
+            elif d.get('not_claimed'):
+                det[name] = 'not claimed (outside the quantifier)'
+            else:
+                det[name] = False
         out['subagent_changes'] = det
     except Exception:
         pass
